@@ -51,7 +51,7 @@ Qed.
 
 (** ** 3. the typed decoder *)
 Theorem unmarshal_t_sound_spec : forall be vf e c v c',
-  wf (erase e) = true -> tys_ok (erase e) = true -> udepth c + edepth e <= MAX_DEPTH ->
+  wf (erase e) = true -> tys_ok (erase e) = true -> typed_depth_ok c e ->
   bytes_ok (ubuf c) -> uoff c <= len (ubuf c) ->
   unmarshal_t vf be e c = Ok (v, c') ->
   wt v (erase e) = true /\ encodable be (uoff c) (udepth c) v = true
@@ -60,8 +60,7 @@ Theorem unmarshal_t_sound_spec : forall be vf e c v c',
   /\ fds_below (unfds c) v = true /\ ety_matches e v = true.
 Proof.
   intros be vf e c v c' Hw Ht Hd Hb Ho H.
-  destruct (unmarshal_t_sound be vf e c v c' Hw Ht ltac:(lia) Hb Ho H) as (Hden & Ec & Hle & Hf & Hm).
-  destruct (Hden (udepth c) Hd) as (H1 & H2 & H3 & H4).
+  destruct (unmarshal_t_sound_at_depth be vf e c v c' Hw Ht Hd Hb Ho H) as ((H1 & H2 & H3 & H4) & Ec & Hle & Hf & Hm).
   rewrite Ec. cbn [set_off ubuf uoff unfds udepth]. repeat split; try assumption. lia.
 Qed.
 
@@ -110,14 +109,14 @@ Qed.
 
 (* whatever the typed decoder accepts, the dynamic decoder accepts, with the same value and position *)
 Theorem typed_accepts_param : forall be vf vf' e c v c',
-  wf (erase e) = true -> tys_ok (erase e) = true -> udepth c + edepth e <= MAX_DEPTH ->
+  wf (erase e) = true -> tys_ok (erase e) = true -> typed_depth_ok c e ->
   bytes_ok (ubuf c) -> uoff c <= len (ubuf c) -> fuel_ok vf' (udepth c) ->
   unmarshal_t vf be e c = Ok (v, c') ->
   unmarshal_p vf' be (erase e) c = Ok (v, c') /\ ety_matches e v = true.
 Proof.
   intros be vf vf' e c v c' Hw Ht Hd Hb Ho Hf H.
-  destruct (unmarshal_t_sound be vf e c v c' Hw Ht ltac:(lia) Hb Ho H) as (Hden & Ec & Hle & Hfd & Hm).
-  split; [|exact Hm]. specialize (Hden (udepth c) Hd).
+  destruct (unmarshal_t_sound_at_depth be vf e c v c' Hw Ht Hd Hb Ho H) as (Hden & Ec & Hle & Hfd & Hm).
+  split; [|exact Hm].
   pose proof (denotes_len _ _ _ _ _ _ _ Hden) as Hl. pose proof (denotes_has_at _ _ _ _ _ _ _ Hden) as Ha.
   destruct Hden as (Hwt & He & _ & _). destruct c as [buf off nf d]. cbn [ubuf uoff unfds udepth] in *.
   rewrite (unmarshal_p_complete_gen be v (erase e) buf off nf d vf' Hwt He Hfd Ha Hf). rewrite Ec.
@@ -176,7 +175,7 @@ Theorem typed_param_agree_no_variant : forall be vf e c v c',
   (unmarshal_t vf be e c = Ok (v, c') <-> unmarshal_p vf be (erase e) c = Ok (v, c')).
 Proof.
   intros be vf e c v c' Hn Hw Ht Hd Hb Ho Hf. split.
-  - intros H. now destruct (typed_accepts_param be vf vf e c v c' Hw Ht Hd Hb Ho Hf H).
+  - intros H. now destruct (typed_accepts_param be vf vf e c v c' Hw Ht (typed_depth_ok_sum c e Hd) Hb Ho Hf H).
   - intros H. apply (param_accepts_typed be vf vf e c v c' Hw Ht Hb Ho Hf H).
     apply ety_matches_no_evar; [exact Hn|].
     now destruct (unmarshal_p_sound be vf (erase e) c v c' Hw Ht Hb Ho H) as ((Hwt & _) & _).
@@ -205,12 +204,11 @@ Proof. intros. eapply validate_sound; eassumption. Qed.
 Theorem param_accepted be vf t c v c' : wf t = true -> tys_ok t = true -> bytes_ok (ubuf c) -> uoff c <= len (ubuf c) ->
   unmarshal_p vf be t c = Ok (v, c') -> accepted be (udepth c) (ubuf c) (uoff c) (uoff c' - uoff c) t.
 Proof. intros Hw Ht Hb Ho H. exists v. now destruct (unmarshal_p_sound be vf t c v c' Hw Ht Hb Ho H). Qed.
-Theorem typed_accepted be vf e c v c' : wf (erase e) = true -> tys_ok (erase e) = true -> udepth c + edepth e <= MAX_DEPTH ->
+Theorem typed_accepted be vf e c v c' : wf (erase e) = true -> tys_ok (erase e) = true -> typed_depth_ok c e ->
   bytes_ok (ubuf c) -> uoff c <= len (ubuf c) ->
   unmarshal_t vf be e c = Ok (v, c') -> accepted be (udepth c) (ubuf c) (uoff c) (uoff c' - uoff c) (erase e).
 Proof.
-  intros Hw Ht Hd Hb Ho H. exists v.
-  destruct (unmarshal_t_sound be vf e c v c' Hw Ht ltac:(lia) Hb Ho H) as (Hden & _). now apply Hden.
+  intros Hw Ht Hd Hb Ho H. exists v. now destruct (unmarshal_t_sound_at_depth be vf e c v c' Hw Ht Hd Hb Ho H).
 Qed.
 
 Lemma slice_split buf off a b m : off + (len a + m) <= len buf -> slice buf off (len a + m) = a ++ b ->
@@ -336,7 +334,8 @@ Proof.
 Qed.
 
 Theorem typed_exact : forall be vf e buf off nf depth v c',
-  wf (erase e) = true -> tys_ok (erase e) = true -> depth + edepth e <= MAX_DEPTH ->
+  wf (erase e) = true -> tys_ok (erase e) = true ->
+  typed_depth_ok {| ubuf := buf; uoff := off; unfds := nf; udepth := depth |} e ->
   bytes_ok buf -> off <= len buf -> fuel_ok vf depth ->
   (unmarshal_t vf be e {| ubuf := buf; uoff := off; unfds := nf; udepth := depth |} = Ok (v, c') <->
    wt v (erase e) = true /\ ety_matches e v = true /\ encodable be off depth v = true /\ fds_below nf v = true
@@ -344,8 +343,8 @@ Theorem typed_exact : forall be vf e buf off nf depth v c',
    /\ c' = {| ubuf := buf; uoff := off + len (spec_enc be off v); unfds := nf; udepth := depth |}).
 Proof.
   intros be vf e buf off nf depth v c' Hw Ht Hd Hb Ho Hf. split.
-  - intros H. apply unmarshal_t_sound in H; [|exact Hw|exact Ht|cbn [udepth] in *; lia|exact Hb|exact Ho].
-    destruct H as (Hden & Ec & Hle & Hfd & Hm). specialize (Hden depth Hd).
+  - intros H. apply unmarshal_t_sound_at_depth in H; [|exact Hw|exact Ht|exact Hd|exact Hb|exact Ho].
+    destruct H as (Hden & Ec & Hle & Hfd & Hm).
     cbn [ubuf uoff unfds udepth] in *. pose proof (denotes_len _ _ _ _ _ _ _ Hden) as Hl. destruct Hden as (Hwt & He & Es & Hbd).
     rewrite Hl. repeat split; try assumption. rewrite Ec. unfold set_off. cbn [ubuf uoff unfds udepth]. f_equal. lia.
   - intros (Hwt & Hm & He & Hfd & Es & Hbd & ->).
